@@ -754,7 +754,10 @@ Definition ladder (c : cfg) (r : req) (disc : option nat) (x : exec_result) (raw
           | Exn e1 =>
               if exn_eqb e1 ClientDisconnected then
                 fin (set_cof true (fst (x_st x1)), snd (x_st x1)) None true
-              else fin (x_st x1) (Some e1) true
+              else
+                (* except BaseException: log; task.close_on_finish = True  (/repo fix 1a765e6:
+                   a failing 500 no longer leaves service() before its tail) *)
+                fin (set_cof true (fst (x_st x1)), snd (x_st x1)) None true
           end
         else fin (set_cof true t, ch) None false
   end.
